@@ -83,6 +83,8 @@ struct World {
     valid: Vec<(Vec<u8>, Vec<u8>, Vec<u8>)>,
     /// the signature of the genuine item served last
     last_genuine: Option<[u8; 64]>,
+    /// (seq, signature) of the item this node itself is publishing under the target while the lookup runs
+    published: Option<(i64, [u8; 64])>,
 }
 
 impl World {
@@ -248,6 +250,11 @@ fn craft(r: &mut Rng, w: &mut World, idx: usize) -> Resp {
                     Resp::Mut { k: pk, v: b"forged value".to_vec(), seq: seq + 100, sig }
                 }
                 9 => Resp::Imm(w.value.clone()),
+                13 if w.published.is_some() => {
+                    // the key, seq and signature of the item this node is publishing right now, around another value
+                    let (pseq, psig) = w.published.unwrap();
+                    Resp::Mut { k: pk, v: b"not what was published".to_vec(), seq: pseq, sig: psig }
+                }
                 10 => {
                     // a perfectly valid item of another key whose own target differs
                     let sig = sign_item(&w.other_sk, seq, &v, None);
@@ -436,7 +443,7 @@ pub fn get_case_x(r: &mut Rng, kind: u8, n: usize, force_empty_pair: bool) -> (S
         Some((a, _)) => (Some(a.clone()), *MutableItem::target_from_key(&sk.verifying_key().to_bytes(), Some(a)).as_bytes()),
         None => (salt, target),
     };
-    let mut w = World { kind, target, salt: if kind == 3 { salt } else { None }, sk, other_sk, value, valid: Vec::new(), last_genuine: None };
+    let mut w = World { kind, target, salt: if kind == 3 { salt } else { None }, sk, other_sk, value, valid: Vec::new(), last_genuine: None, published: None };
     // the second caller's world when it asks for the other salt: its own target (as the API computes it), its own salt
     let w2: Option<World> = long_pair.as_ref().map(|(_, b)| World {
         kind,
@@ -447,6 +454,7 @@ pub fn get_case_x(r: &mut Rng, kind: u8, n: usize, force_empty_pair: bool) -> (S
         value: w.value.clone(),
         valid: Vec::new(),
         last_genuine: None,
+        published: None,
     });
     let w2: Option<World> = match (&w2, &empty_pair) {
         (None, Some(first_has_none)) => {
@@ -460,15 +468,30 @@ pub fn get_case_x(r: &mut Rng, kind: u8, n: usize, force_empty_pair: bool) -> (S
                 value: w.value.clone(),
                 valid: Vec::new(),
                 last_genuine: None,
+                published: None,
             })
         }
         _ => w2,
     };
+    // sometimes the node itself is publishing an item under this target while the callers look it up (the lookup is the
+    // put's; the callers join it and are handed the item being published first)
+    let mut processed: Vec<Resp> = Vec::new();
+    let (ptx, _prx) = flume::unbounded();
+    if kind == 3 && long_pair.is_none() && empty_pair.is_none() && r.chance(1, 3) {
+        let pseq = 1 + r.below(5) as i64;
+        let item = MutableItem::new(&w.sk, &w.value, pseq, w.salt.as_deref());
+        let pk = w.sk.verifying_key().to_bytes();
+        let sig = *item.signature();
+        w.note(&pk, &spec_signable(pseq, &w.value, w.salt.as_deref()), &sig);
+        w.published = Some((pseq, sig));
+        processed.push(Resp::Mut { k: pk, v: w.value.clone(), seq: pseq, sig });
+        s.node.actor.verif_put(dht::PutRequestSpecific::PutMutable(PutMutableRequestArguments::from(item, None)), ptx, None);
+    }
+    let own_items = processed.len();
     let mut first = Caller::start(&mut s, &w);
     let main_target = w.target;
     let mut joiner: Option<Caller> = None;
-    let join_after = r.below(n as u64) as usize;
-    let mut processed: Vec<Resp> = Vec::new();
+    let join_after = own_items + r.below(n as u64) as usize;
     let mut queue: Vec<(usize, SocketAddrV4, u32)> = Vec::new();
     for _ in 0..400 {
         // one tick; requests that arrive are queued, one queued request is answered per tick in random order
